@@ -256,7 +256,8 @@ static bool is_empty_directory(const char *path)
 	return ret;
 }
 
-static bool can_remove_directory(const char *path)
+/* a directory uftrace may replace or remove: uftrace data or empty (false if it does not exist) */
+bool can_remove_directory(const char *path)
 {
 	if (access(path, F_OK) != 0)
 		return false;
